@@ -109,6 +109,13 @@ func failer(p *probe, from gen.PID, m any) error {
 		panic("boom")
 	case "normal":
 		return gen.TerminateReasonNormal
+	case "fail-other":
+		return errX
+	}
+	if g, ok := m.(*vsched.Gate); ok {
+		// stay inside this callback until the gate opens, then fail with a reason of its own
+		g.Wait()
+		return errX
 	}
 	return nil
 }
